@@ -5,3 +5,4 @@ import Aiorpcx.C12.Props
 import Aiorpcx.C09.Props
 import Aiorpcx.C10.Props
 import Aiorpcx.C15.Props
+import Aiorpcx.C19.Props
